@@ -26,7 +26,7 @@ PROP = {
                   "re-parse of the stored file, the inode of unchanged files, absence of temporary files and the "
                   "block/allow decision for one probe name per list version are compared with the model. "
                   "Exploration: no absence claim."
-                  " TestVFC15ParserAfterManyRules puts the generated texts behind 100-3000 ordinary rules; TestVFC15RefreshVsAdmin runs an admin operation on another list inside the list server's handler of a drawn download (the rebuilds it queues are carried out afterwards by the harness-owned worker queue, as the scheduled refresh's goroutine would).",
+                  " TestVFC15ParserAfterManyRules puts the generated texts behind 100-3000 ordinary rules; TestVFC15RefreshVsAdmin runs an admin operation on another list inside the list server's handler of a drawn download (the rebuilds it queues are carried out afterwards by the harness-owned worker queue, as the scheduled refresh's goroutine would). A refused re-point of a list (POST /control/filtering/set_url to a source that answers 404/503, is missing or lies outside the safe patterns) is one more kind of failed download in the histories of TestVFC15Refresh; in TestVFC15RefreshVsAdmin the administrator may also give the list that is being refreshed another source, after which the list must be what that source delivered (administrator's calls run in their own goroutine; the download goes on when the call has ended or has come to wait for the refresh).",
     "level_note": "Where the statement is silent the check accepts any reading and counts the text as ambiguous: "
                   "Unicode (non-ASCII) white space at line ends, VT/FF at line ends, control bytes inside comments, "
                   "an HTML opening after accepted rules, a leading byte-order mark, lines of 64 KiB and more, and "
